@@ -292,6 +292,49 @@ func TestC15(t *testing.T) {
 				c.c15Value(s, "boundary-numbers", k, true)
 			}
 		})
+		// values nested d containers deep, built at run time: every level is an element / a property and must
+		// be shown, down to the innermost scalar
+		c.Sub("deep-nesting", func(s *Sub) {
+			var k int64
+			for _, d := range []int{1, 2, 3, 5, 10, 31, 32, 33, 63, 64, 65, 66, 100, 127, 128, 129, 255, 256, 257, 500, 1000, 2000} {
+				for _, form := range []string{"array", "object", "mixed"} {
+					k++
+					if !c.Mine(k) {
+						continue
+					}
+					wrap := map[string]string{"array": "a = [a];", "object": "a = {v: a};", "mixed": bn.KwIf + " (i % 2 == 0) a = [a]; " + bn.KwElse + " a = {v: a};"}[form]
+					src := fmt.Sprintf("%s a = [\"ক\", 7];\n%s (%s i = 0; i < %d; i = i + 1) { %s }\n%s a;\n%s \"end\";\n", bn.KwVar, bn.KwFor, bn.KwVar, d, wrap, bn.KwPrint, bn.KwPrint)
+					r := c.RunB(src, "")
+					c.Ev.EnumCase("deep-nesting", true, func() string { return src }, "nesting-"+form, fmt.Sprintf("depth-%d", d))
+					bad := ""
+					ln := strings.Split(r.Out, "\n")
+					switch {
+					case r.Class() != "clean" || len(ln) != 3 || ln[1] != "end":
+						bad = "the program must print one line for the value, then end"
+					case !strings.Contains(ln[0], "ক") || !strings.Contains(ln[0], "7"):
+						bad = "the innermost elements are not shown"
+					default:
+						// punctuation is not pinned: any bracket character counts, and the property name is the only v
+						opens := strings.Count(ln[0], "[") + strings.Count(ln[0], "{")
+						closes := strings.Count(ln[0], "]") + strings.Count(ln[0], "}")
+						props := strings.Count(ln[0], "v")
+						wantOpens, wantProps := d+1, 0
+						if form == "object" {
+							wantProps = d
+						} else if form == "mixed" {
+							wantProps = d / 2
+						}
+						if opens != wantOpens || closes != wantOpens || props != wantProps {
+							bad = fmt.Sprintf("expected %d nested containers (%d of them objects with property v), the line shows %d opening brackets, %d closing brackets, %d properties", wantOpens, wantProps, opens, closes, props)
+						}
+					}
+					if bad != "" {
+						s.Violation(Replay{Check: "nesting", Sig: "nesting-" + form, Source: src, Note: bad, Observed: clip(r.Describe(), 400)})
+					}
+				}
+			}
+			c.Ev.MarkExhaustive("22 nesting depths (1..2000, around 32/64/128/256) x arrays, objects, alternating")
+		})
 		c.Sub("shared-containers", func(s *Sub) {
 			if c.Shard != 0 {
 				return
